@@ -314,7 +314,7 @@ Proof.
   set (d2 := sty - dy). assert (Hd2 : sty = dy + d2) by (unfold d2; lia). clearbody d2.
   set (r := ex - stx). assert (Hr : ex = stx + r) by (unfold r; lia). clearbody r.
   assert (Hr' : ey = sty + r) by lia.
-  clear Eb Ef B6 F6 B5 F5.
+  clear Eb Ef B6 B5.
   set (ctext2 := ctext ++ tagged TDel (sub x dx stx) ++ tagged TAdd (sub y dy sty)).
   assert (O2 : old_side ctext2 = sub x chx stx).
   { unfold ctext2. rewrite !old_side_app, old_side_del, old_side_add, app_nil_r, I9.
